@@ -246,11 +246,22 @@ func c06ChildMain(histPath, outPath string) error {
 	if err := json.Unmarshal(raw, &h); err != nil {
 		return err
 	}
+	// a node with peers: Tendermint's own goroutines (consensus gossip, pex, evidence) draw from the process-wide
+	// generator of tendermint/libs/rand all the time; the state machine must not share that generator
+	if os.Getenv("C06_PEERS") != "" {
+		for i := 0; i < 2; i++ {
+			go func() {
+				for {
+					_ = tmrand.Int63()
+				}
+			}()
+		}
+	}
 	tr, err := c06Replay(&h, 3*time.Millisecond)
 	if err != nil {
 		return err
 	}
-	tr.Env = fmt.Sprintf("pid=%d GOMAXPROCS=%s GOGC=%s TZ=%s (local zone %s)", os.Getpid(), os.Getenv("GOMAXPROCS"), os.Getenv("GOGC"), os.Getenv("TZ"), time.Now().Location())
+	tr.Env = fmt.Sprintf("pid=%d GOMAXPROCS=%s GOGC=%s TZ=%s peers=%q (local zone %s)", os.Getpid(), os.Getenv("GOMAXPROCS"), os.Getenv("GOGC"), os.Getenv("TZ"), os.Getenv("C06_PEERS"), time.Now().Location())
 	js, err := json.Marshal(tr)
 	if err != nil {
 		return err
@@ -270,7 +281,7 @@ func c06RunChild(histPath, outPath string, variant int) (*c06Trace, error) {
 	if variant%2 == 0 {
 		env = append(env, "GOMAXPROCS=1", "GOGC=20")
 	} else {
-		env = append(env, "GOMAXPROCS=3", "GOGC=400")
+		env = append(env, "GOMAXPROCS=3", "GOGC=400", "C06_PEERS=2")
 	}
 	// the second node runs on a host in another time zone (with daylight saving): calendar arithmetic
 	// must not depend on the host's local zone
